@@ -6,6 +6,10 @@ Read with Python's `ast` from the working tree (nothing is imported or executed)
 * every `parser.add_argument(<literal flags>, <literal keywords>)` call of the
   function, in source order (the call inside the per-compiler loop has starred /
   `**` arguments and is not part of the *fixed* table): flags, dest, action, nargs, const;
+  `action=<ClassName>` is resolved against the `argparse.Action` subclasses of config.py
+  (CUSTOM_ACTIONS): `_UndefineAction` -> `undefine`, and the character class of the
+  `re.split(r"[...]", <definition>, 1)[0]` call in its `__call__` (the characters that end
+  the macro name of a `-D` value) is emitted as `undefineStops`;
 * the keyword arguments of the `argparse.ArgumentParser(...)` constructor
   (`add_help`, `exit_on_error`, `allow_abbrev`, `prefix_chars`, `fromfile_prefix_chars`);
 * which parse method is called on the parser (`parse_known_args` / `parse_args` / ...);
@@ -46,6 +50,31 @@ ACTIONS = {
     "store": "store", "append": "append", "store_true": "storeTrue", "store_false": "storeFalse",
     "store_const": "storeConst", "append_const": "appendConst", "count": "count", "extend": "extend",
 }
+# argparse.Action subclasses of config.py that may be named in the fixed table -> action kind of the model
+CUSTOM_ACTIONS = {"_UndefineAction": "undefine"}
+
+
+def undefine_stops(h, mod, cls_name):
+    """the characters that end a macro name in `_UndefineAction.__call__`: the one
+    `re.split(r"[<literal characters>]", <name>, 1)[0]` call, compared with the option's value"""
+    cls = h.find_class(mod, cls_name)
+    if not any(ast.unparse(b) in ("argparse.Action", "Action") for b in cls.bases):
+        raise h.Missing(f"{cls_name} is not an argparse.Action subclass")
+    if [n.name for n in cls.body if isinstance(n, ast.FunctionDef)] != ["__call__"]:
+        raise h.Missing(f"{cls_name}: methods other than __call__ (e.g. an __init__ changing nargs)")
+    fn = h.find_func(cls, "__call__")
+    calls = [n for n in ast.walk(fn) if isinstance(n, ast.Call) and ast.unparse(n.func) == "re.split"]
+    if len(calls) != 1:
+        raise h.Missing(f"expected exactly one re.split(...) call in {cls_name}.__call__")
+    c = calls[0]
+    if len(c.args) != 3 or c.keywords or not isinstance(c.args[0], ast.Constant) or not isinstance(c.args[0].value, str) \
+            or not isinstance(c.args[2], ast.Constant) or c.args[2].value != 1:
+        raise h.Missing(f"{cls_name}: re.split(<literal pattern>, <definition>, 1) expected")
+    pat = c.args[0].value
+    body = pat[1:-1]
+    if len(pat) < 3 or pat[0] != "[" or pat[-1] != "]" or not body or any(ch in "\\^-[]" for ch in body):
+        raise h.Missing(f"{cls_name}: the split pattern {pat!r} is not a plain character class")
+    return body
 
 
 def generate(repo, h):
@@ -82,6 +111,7 @@ def generate(repo, h):
 
     # ---- the fixed add_argument table
     rows = []
+    undef_stops = None
     calls = [
         n for n in ast.walk(fn)
         if isinstance(n, ast.Call) and isinstance(n.func, ast.Attribute) and n.func.attr == "add_argument"
@@ -96,14 +126,29 @@ def generate(repo, h):
         flags = [ast.literal_eval(a) for a in c.args]
         if not flags or not all(isinstance(f, str) for f in flags):
             raise h.Missing("add_argument flags are not string literals")
-        k = {x.arg: ast.literal_eval(x.value) for x in c.keywords}
+        k = {}
+        for x in c.keywords:
+            if x.arg == "action" and isinstance(x.value, ast.Name):
+                if x.value.id not in CUSTOM_ACTIONS:
+                    raise h.Missing(f"unmodelled custom action class {x.value.id}")
+                k["action"] = ("custom", x.value.id)
+            else:
+                k[x.arg] = ast.literal_eval(x.value)
         extra = set(k) - {"dest", "action", "nargs", "const", "help", "default", "metavar", "required", "type", "choices"}
         if extra:
             raise h.Missing(f"unmodelled add_argument keywords {sorted(extra)}")
         if "type" in k or "choices" in k or "default" in k or "required" in k:
             raise h.Missing("add_argument keyword outside the modelled subset (type/choices/default/required)")
         action = k.get("action", "store")
-        if not isinstance(action, str):
+        if isinstance(action, tuple):
+            kind = CUSTOM_ACTIONS[action[1]]
+            if kind == "undefine":
+                stops = undefine_stops(h, mod, action[1])
+                if undef_stops not in (None, stops):
+                    raise h.Missing("two different undefine actions")
+                undef_stops = stops
+            action = "custom:" + kind
+        elif not isinstance(action, str):
             raise h.Missing("non-literal action")
         nargs = k.get("nargs", None)
         if nargs is None:
@@ -120,7 +165,8 @@ def generate(repo, h):
             ln = ".other"
         dest = k.get("dest", None)
         const = k.get("const", None)
-        rows.append((flags, dest, ACTIONS.get(action, "other"), ln, const if isinstance(const, str) else None))
+        act = action[len("custom:"):] if action.startswith("custom:") else ACTIONS.get(action, "other")
+        rows.append((flags, dest, act, ln, const if isinstance(const, str) else None))
     if dynamic != 1:
         raise h.Missing(f"expected exactly one per-compiler add_argument(*flags, **kwargs) call, found {dynamic}")
 
@@ -179,7 +225,7 @@ def generate(repo, h):
     L.append("/-! GENERATED by tools/gen/argtable.py from /repo's working tree (codebasin/config.py, codebasin/__init__.py) — do not edit. -/")
     L.append(f"namespace {NAMESPACE}\n")
     L.append("/-- `action=` of an `add_argument` call -/")
-    L.append("inductive Action | store | append | storeTrue | storeFalse | storeConst | appendConst | count | extend | other")
+    L.append("inductive Action | store | append | storeTrue | storeFalse | storeConst | appendConst | count | extend | undefine | other")
     L.append("deriving DecidableEq, Repr, Inhabited")
     L.append("/-- `nargs=` of an `add_argument` call (`none` = keyword absent / `None`) -/")
     L.append("inductive Nargs | none | opt | star | plus | int (n : Nat) | other")
@@ -200,6 +246,8 @@ def generate(repo, h):
     L.append(f"def allowAbbrev : Bool := {h.lbool(allow_abbrev)}")
     L.append(f"def prefixChars : List Char := {chars(prefix_chars)}")
     L.append(f"def fromfilePrefixChars : Option (List Char) := {opt_chars(fromfile)}")
+    L.append("/-- `_UndefineAction` (`-U`): the characters that end the macro name of a `-D` value (`re.split(r\"[...]\", d, 1)[0]`); empty when the table has no such action -/")
+    L.append(f"def undefineStops : List Char := {chars(undef_stops or '')}")
     L.append("/-- the method called on the parser -/")
     L.append(f"def parseCall : List Char := {chars(parse_calls[0])}")
     L.append("/-- namespace attributes concatenated into the configuration's defines / include_paths / include_files -/")
